@@ -347,16 +347,16 @@ class UniqueMixin:
                 < MAX_NUMBER_OF_INSTANCES_TO_VERIFY_UNIQUENESS
         ):
             hash_of_field_val = value.__hash__()
+            # test and registration in ONE dictionary operation: two threads with the same value
+            # cannot both find the value unregistered
             if (
-                    instance_by_value_for_current_struct.get(hash_of_field_val, instance)
+                    instance_by_value_for_current_struct.setdefault(hash_of_field_val, instance)
                     != instance
             ):
                 raise ValueError(
                     f"Instance copy of field {field_name} in {structure_class_name}, which is defined as unique. "
                     f"Instance is {wrap_val(value)}"
                 )
-            if hash_of_field_val not in instance_by_value_for_current_struct:
-                instance_by_value_for_current_struct[hash_of_field_val] = instance
 
 
 class Field(UniqueMixin, metaclass=FieldMeta):
